@@ -1,21 +1,25 @@
 #!/bin/sh
 # Offline setup: full .vo build of the Coq development (proofs + extraction), the extracted OCaml
-# models, libvata from /repo's working tree (guard ONDRIK_LIBVATA_VERIF on) and all drivers.
-set -e
+# models, libvata from /repo's working tree (guard ONDRIK_LIBVATA_VERIF on) and the drivers of all claimed checks.
 cd "$(dirname "$0")"
 python3 - <<'PY'
-import sys, os
-sys.path.insert(0, "harness")
+import sys, os, importlib, json
+sys.path.insert(0, "harness"); sys.path.insert(0, "harness/props")
 import core, build, build_ml
 core.coq_prepare()
 rc, out = core.sh("timeout 3000 make -k -j16", cwd=core.COQ)
-print(out[-3000:])
-if rc != 0: print("setup: Coq build reported errors (rc=%d)" % rc)
-drivers = sorted(f[:-3] for f in os.listdir("harness/drv") if f.endswith(".cc"))
-b = build.build("plain", drivers)
-print("plain build:", b)
-for f in sorted(os.listdir("harness/ml")):
-    if f.endswith("_main.ml"):
-        print("model", f, build_ml.build(f[:-8]))
-sys.exit(0 if (rc == 0 and b) else 1)
+print(out[-2000:])
+if rc != 0: print("setup: Coq build reported errors (rc=%d); each check re-runs make and reports its own files" % rc)
+ids = [c["property_id"].lower() for c in json.load(open("MANIFEST.json"))["checks"]]
+ok = True
+b = build.build("plain", [])
+print("libvata (plain):", b)
+ok = ok and bool(b)
+for pid in ids:
+    m = importlib.import_module(pid)
+    d = build.build("plain", [m.DRIVER])
+    e = build_ml.build(m.MODEL)
+    print(pid, "driver:", bool(d), "model:", e)
+    ok = ok and bool(d) and bool(e)
+sys.exit(0 if ok else 1)
 PY
